@@ -94,7 +94,7 @@ CHECKS = {
         "translation validation by differential testing: generated (grammar, lexer, settings) pairs are compiled by the real compile-time builders inside one cargo build, the resulting binary compares the generated modules with the run-time pipeline on generated inputs",
         "translation_validation",
         "Per generated program (pair): same lexemes, same value/tree, same errors with the same repair sets, same token_epp and R_*/N_* constants; user actions ($1..$n as Ok/Err, $span, $lexer, $$; kinds Grmtools and Original(UserAction); %parse-param by value, as a shared log, behind %parse-generics; unit-typed rules) validated against a native evaluation of the same action template; settings (yacckind, recoverer, serialisation format, edition, visibility, lexer flags via builder or header) sampled.",
-        "Trusted: the batch crate's glue (engine/ctbatch), rustc. With several equally ranked repairs only results up to the first error are compared. Storage type u32 only. Besides the pairs, lexer-only items from the C09/C11 lexer generators are built by CTLexerBuilder with a user-supplied rule_ids_map and compared (definition and lexemes) with the run-time definition.",
+        "Trusted: the batch crate's glue (engine/ctbatch), rustc. With several equally ranked repairs only results up to the first error are compared. Storage types u32/u16/u8 sampled. Besides the pairs, lexer-only items from the C09/C11 lexer generators are built by CTLexerBuilder with a user-supplied rule_ids_map and compared (definition and lexemes) with the run-time definition.",
         "DESIGN.md section 5, C13",
     ),
     "C14": (
